@@ -290,8 +290,56 @@ KERNEL_REPLAY = {
 }
 
 
+class StringModelOb(Obligation):
+    """self-test of the lifting: every modelled str method of SymStr against Python's str, on EVERY path's model"""
+
+    validate_every = 1
+    OPS = {
+        "lower": lambda s: s.lower(), "upper": lambda s: s.upper(),
+        "strip_quotes": lambda s: s.strip('"'), "strip_brackets": lambda s: s.strip("[]"), "lstrip_dot": lambda s: s.lstrip("."),
+        "rstrip_space": lambda s: s.rstrip(), "split_dot": lambda s: s.split("."), "rsplit_dot_1": lambda s: s.rsplit(".", 1),
+        "split_ab": lambda s: s.split("a."), "startswith_bracket": lambda s: bool(s.startswith("[")), "endswith_bracket": lambda s: bool(s.endswith("]")),
+        "contains_quote": lambda s: '"' in s, "contains_two": lambda s: "a." in s, "eq_const": lambda s: bool(s == 'a."'), "lt_const": lambda s: bool(s < "a.A"),
+        "replace_dot": lambda s: s.replace(".", "::"), "find_dot": lambda s: s.find("."), "removeprefix": lambda s: s.removeprefix("a"),
+        "partition_dot": lambda s: s.partition("."), "rpartition_dot": lambda s: s.rpartition("."), "concat": lambda s: "<" + s + ">",
+        "slice": lambda s: s[1:], "index0": lambda s: s[0], "isnumeric": lambda s: bool(s.isnumeric()), "join": lambda s: s.join(["x", "y", "z"]),
+        "count_dot": lambda s: s.count("."), "title_unsupported_when_symbolic": None,
+    }
+
+    def __init__(self, op, length):
+        self.op, self.length = op, length
+        self.key = "string-model/%s/len%d" % (op, length)
+
+    def describe(self):
+        return {"key": self.key}
+
+    def body(self):
+        s = SymStr.var("s", self.length, 'aA".[] 7')
+        f = self.OPS[self.op]
+        if f is None:
+            try:
+                s.title()
+                return Verdict(False, {"operand": s, "result": "no Unsupported raised"})
+            except Unsupported:
+                return Verdict(True, {"operand": s, "result": None}, nontrivial=False)
+        return Verdict(True, {"operand": s, "result": f(s)})
+
+    def replay(self, conc, verdict_ok):
+        f = self.OPS[self.op]
+        if f is None:
+            return {"real_ok": True, "lifted_matches": True, "detail": "unsupported method refused"}
+        want = f(conc["operand"])
+        got = conc["result"]
+        norm = lambda x: list(x) if isinstance(x, (list, tuple)) else x
+        same = norm(want) == norm(got)
+        return {"real_ok": True, "lifted_matches": same, "detail": {"operand": conc["operand"], "model": got, "python": want}}
+
+
 def obligations(tier, seed):
     obs = []
+    for op in StringModelOb.OPS:
+        for ln in ([3] if tier == "quick" else [1, 2, 3, 4]):
+            obs.append(StringModelOb(op, ln))
     lens = [2] if tier == "quick" else [1, 2, 3]
     dialects = ["ansi", "sparksql", "tsql"] if tier == "quick" else ["ansi", "sparksql", "tsql", "postgres", "bigquery", "mysql", "snowflake"]
     for d in dialects:
